@@ -105,6 +105,8 @@ impl ManiaGradualDifficulty {
             clock_rate,
             mania_objects.into_iter().take(take),
         );
+        #[cfg(rosu_pp_verif)]
+        crate::verif::view_probe::report_slice(1, 3, &diff_objects);
 
         let strain = Strain::new(total_columns as usize);
 
